@@ -96,6 +96,13 @@ theorem second_cycle (cls : Cls) (tol : Rat) (A A' : List Entry) (plain plain' :
   exact h1
 
 
+/-- the regular expression `(.*?)\[(.*?)\]` (leftmost match, both groups as short as possible): a text
+that starts with a `[`-free part `p`, then `[`, a `]`-free part `b`, then `]`, yields the match
+`(p, b)` followed by the matches of the rest -/
+theorem regex_match_step (p b rest : Str) (hp : ∀ c ∈ p, c ≠ '[') (hb : ∀ c ∈ b, c ≠ ']') :
+    findTerms (p ++ '[' :: (b ++ ']' :: rest)) = (p, b) :: findTerms rest :=
+  findTermsAux_match p b rest hp hb
+
 /-- **overwrite_guard.**  `save_operator` without `allow_overwrite` on an existing file raises and
 (returning an error) leaves the file system as it was. -/
 theorem overwrite_guard (tol : Rat) (fs : FS) (cls : Cls) (A : List Entry) (name dir path : Str) (plain : Bool)
@@ -132,10 +139,6 @@ example : findTerms "1.5 [2^ 3] +\n-2j [0]".toList = [("1.5 ".toList, "2^ 3".toL
 example : ValidTerm .qubit [(0, 1), (12, 3)] := by intro f hf; simp at hf; rcases hf with rfl | rfl <;> rfl
 example : Savable .quad := by intro h; cases h
 example : getFilePath "a".toList "d".toList = getFilePath "a.data".toList "d".toList := by decide
-
-def exNt : NumTables := ⟨[(['1', '.', '5'], ⟨3 / 2, 0⟩)], [(['2', 'j'], ⟨0, 2⟩)]⟩
-def exA : List Entry :=
-  [([(2, 1), (13, 0)], ⟨3 / 2, 0⟩, ['1', '.', '5']), ([(0, 0)], -⟨0, 2⟩, ['-', '2', 'j'])]
 
 /-- a concrete instance of all hypotheses of `parse_print_roundtrip` (fermions, a float and a
 negative imaginary coefficient, a two-digit index) -/
